@@ -173,6 +173,9 @@ class Ctx:
         """assumed contract of a library callable, supplied by the harness"""
         self.I.models[dotted] = lambda I, *a, **k: fn(*a, **k)
 
+    def lib_model_raw(self, dotted, fn):
+        self.I.models[dotted] = fn
+
     def same_object(self, a, b):
         if isinstance(a, (SymBool, SymInt)) and isinstance(b, (SymBool, SymInt)):
             return a.t.eq(b.t)
@@ -261,6 +264,27 @@ class Ctx:
         """True iff `fid` is listed as an OPEN finding in /verif/known_findings.json: the contract then proves the
         obligation outside the finding's region, and the check re-confirms the finding's witness natively"""
         return fid in _open_findings()
+
+    def regstr(self, name, pattern):
+        """an arbitrary string of the regular language `pattern` (Python re syntax, full match)"""
+        from .regex import RegStr, pattern_to_re
+        from .strings import PieceStr
+        return RegStr(name, pattern_to_re(pattern), pattern)
+
+    def text(self, *pieces):
+        from .strings import PieceStr
+        return PieceStr(list(pieces))
+
+    def new_set_of(self, items):
+        from .interp import SetVal
+        return SetVal(list(items))
+
+    def new_set(self):
+        from .interp import SetVal
+        return SetVal()
+
+    def set_add(self, s, v):
+        s.add(self.I, v)
 
     def bytearray_of(self, b):
         return ByteArr(to_bytes_val(b))
